@@ -49,6 +49,14 @@ def eval_case(case: dict) -> dict:
     reach = L.ap_reachable(ap)
     out["leaky"] = bool({a for a in leaked if a in reach})
     out["reuse"] = L.ap_reuse(ap)
+    if case.get("public") and ap["graphs"][0]["args"] is not None:
+        # the public entry point must come to the same verdict and pass the same oracle
+        o3 = L.observe_public(R)
+        built1 = o["ok"] and o.get("model_err") is None
+        out["public_same"] = bool(o3["ok"]) == bool(built1)
+        for k, w in L.oracle(ap, o3):
+            if (k, w) not in out["oracle"]:
+                out["oracle"].append((k, "via spox.build: " + w))
     if case.get("twin"):
         # the same abstract program through the low-level API must look the same to the Builder
         try:
@@ -92,7 +100,7 @@ def gen_cases(ck: core.Check) -> tuple[list[dict], dict]:
             cases.append({"kind": "script", "script": sc, "descr": d, "family": "skeleton-k3"})
         stats["skeleton_k3_sampled"] = len(cases) - n0
     else:
-        for d, sc in G.skeletons(3, 2, rng, sample=260):
+        for d, sc in G.skeletons(3, 2, rng, sample=700):
             cases.append({"kind": "script", "script": sc, "descr": d, "family": "skeleton-k2"})
         stats["skeleton_k2_sampled"] = len(cases) - n0
         n0 = len(cases)
@@ -105,7 +113,7 @@ def gen_cases(ck: core.Check) -> tuple[list[dict], dict]:
         stats["skeleton_k3_sampled"] = len(cases) - n0
     # (ii) seeded random programs
     n0 = len(cases)
-    for i in range(ck.pick(1200, 12000)):
+    for i in range(ck.pick(2400, 12000)):
         leak_p = [0.0, 0.0, 0.05, 0.3][i % 4]
         sc = G.random_script(rng, rng.randrange(3, 28), leak_p)
         cases.append({"kind": "script", "script": sc, "family": f"random-leak{leak_p}"})
@@ -113,6 +121,8 @@ def gen_cases(ck: core.Check) -> tuple[list[dict], dict]:
     for i, c in enumerate(cases):
         if i % 4 == 0:
             c["twin"] = True
+        if i % 8 == 3:
+            c["public"] = True
     return cases, stats
 
 
@@ -237,6 +247,10 @@ def run(ck: core.Check):
                         "structural check (model) vs onnx.checker at the end of build",
                         json.dumps({"ap": L.ap_for_model(ap), "model_struct_ok": m["struct_ok"], "real": r["model_err"]})[:1400],
                     )
+        if r.get("public_same") is False:
+            mism += 1
+            ck.broken("correspondence", "spox.build (public) vs Builder.build_main + to_onnx_model: different verdict",
+                      json.dumps({"ap": L.ap_for_model(ap)})[:1400])
         if r.get("twin_same") not in (None, True):
             mism += 1
             ck.broken("correspondence", "callback realisation vs low-level realisation of the same abstract program",
